@@ -71,35 +71,17 @@ func (w *c16World) randomStep(rng *kit.Rand, kinds c16Kinds) {
 	case x < 68:
 		w.tidy(rng.Chance(1, 2), rng.Chance(2, 3), rng.Chance(1, 2))
 		mark("tidy")
-	case x < 79:
-		n := w.cfg
-		switch {
-		case n.Disable && rng.Chance(1, 2):
-			n.Disable = false
-		case n.OcspDisable && rng.Chance(1, 2):
-			n.OcspDisable = false
-		default:
-			switch rng.Intn(5) {
-			case 0, 1:
-				n.Auto = !n.Auto
-				n.Delta = n.Auto && rng.Chance(1, 2)
-			case 2:
-				n.Disable = !n.Disable
-			case 3:
-				n.OcspDisable = !n.OcspDisable
-			case 4:
-				n.AllowExpired = !n.AllowExpired
-			}
-		}
-		w.setCfg(n)
+	case x < 81:
+		k := w.randomCfgStep(rng)
+		w.r.Count("cfgstep:"+k, 1)
 		mark("config")
-	case x < 83:
+	case x < 85:
 		if len(pres) < 2 {
 			return
 		}
 		w.removeIssuer(kit.Pick(rng, pres))
 		mark("issuer-remove")
-	case x < 89:
+	case x < 90:
 		var gone []int
 		for i := range w.iss {
 			if w.iss[i].ID == "" {
@@ -111,7 +93,7 @@ func (w *c16World) randomStep(rng *kit.Rand, kinds c16Kinds) {
 		}
 		w.readdIssuer(kit.Pick(rng, gone))
 		mark("issuer-readd")
-	case x < 91:
+	case x < 92:
 		if len(w.iss) >= 4 {
 			return
 		}
@@ -131,6 +113,91 @@ func (w *c16World) randomStep(rng *kit.Rand, kinds c16Kinds) {
 	default:
 		w.periodic()
 		mark("periodic")
+	}
+}
+
+// randomCfgStep performs one generated write to config/crl and returns its kind. Writes are "full" (every
+// field) or "partial" (only the fields that change, as an operator would send them); some are requests the
+// documentation says are refused (delta CRLs without auto-rebuild, a grace period not shorter than the
+// expiry). Leaving auto-rebuild mode while revocations are still unpublished, and re-enabling a disabled CRL,
+// are made more likely than a uniform choice would make them.
+func (w *c16World) randomCfgStep(rng *kit.Rand) string {
+	cur := w.cfg
+	full := rng.Chance(1, 2)
+	send := func(kind string, want c16Cfg, part map[string]any) string {
+		if full {
+			w.setCfg(want)
+			return kind + "/full"
+		}
+		w.writeCfg(part)
+		return kind + "/partial"
+	}
+	switch {
+	case cur.Disable && rng.Chance(2, 5):
+		n := cur
+		n.Disable = false
+		return send("disable-off", n, map[string]any{"disable": false})
+	case cur.Auto && w.pendingAbsent > 0 && rng.Chance(2, 5):
+		n := cur
+		n.Auto, n.Delta = false, false
+		part := map[string]any{"auto_rebuild": false}
+		if cur.Delta || rng.Chance(1, 2) {
+			part["enable_delta"] = false
+		}
+		return send("auto-off", n, part)
+	}
+	switch rng.Intn(14) {
+	case 0:
+		n := cur
+		n.Auto, n.Delta = true, false
+		return send("auto-on", n, map[string]any{"auto_rebuild": true, "enable_delta": false})
+	case 1:
+		n := cur
+		n.Auto, n.Delta = true, true
+		return send("auto-on-delta", n, map[string]any{"auto_rebuild": true, "enable_delta": true})
+	case 2, 3:
+		n := cur
+		n.Auto, n.Delta = false, false
+		return send("auto-off", n, map[string]any{"auto_rebuild": false, "enable_delta": false})
+	case 4:
+		if !cur.Auto {
+			// refused by the documentation: "This option requires auto_rebuild to also be enabled"
+			w.writeCfg(map[string]any{"enable_delta": true})
+			return "invalid-delta-without-auto"
+		}
+		n := cur
+		n.Delta = !cur.Delta
+		return send("delta-flip", n, map[string]any{"enable_delta": n.Delta})
+	case 5, 6:
+		n := cur
+		n.Disable = !cur.Disable
+		return send("disable-flip", n, map[string]any{"disable": n.Disable})
+	case 7, 8:
+		t := kit.Pick(rng, c16Timings)
+		n := cur
+		n.Expiry, n.Grace, n.DeltaInt = t[0], t[1], t[2]
+		return send("timing", n, map[string]any{"expiry": t[0], "auto_rebuild_grace_period": t[1], "delta_rebuild_interval": t[2]})
+	case 9:
+		n := cur
+		n.OcspDisable = !cur.OcspDisable
+		return send("ocsp-flip", n, map[string]any{"ocsp_disable": n.OcspDisable})
+	case 10:
+		n := cur
+		n.AllowExpired = !cur.AllowExpired
+		return send("allow-expired-flip", n, map[string]any{"allow_expired_cert_revocation": n.AllowExpired})
+	case 11:
+		// refused by the documentation: the grace period "must be shorter than the CRL expiry period"
+		w.writeCfg(map[string]any{"auto_rebuild": true, "expiry": "10h", "auto_rebuild_grace_period": "10h"})
+		return "invalid-grace-not-shorter-than-expiry"
+	case 12:
+		// only the auto_rebuild field: refused while delta CRLs are enabled, a plain mode switch otherwise
+		w.writeCfg(map[string]any{"auto_rebuild": !cur.Auto})
+		return "auto-flip-only-field"
+	default:
+		// an expiry change alone (the other timing fields stay)
+		e := kit.Pick(rng, []string{"60h", "72h", "84h", "120h"})
+		w.writeCfg(map[string]any{"expiry": e})
+		return "expiry-only"
 	}
 }
 
@@ -202,6 +269,24 @@ func c16History(r *kit.Result, rng *kit.Rand, id string, nsteps int, prologue in
 		w.check("prologue")
 		w.setCfg(c16Cfg{})
 		w.check("prologue")
+	case 4:
+		// a walk through generated configuration writes; between two writes one more certificate is revoked
+		// and an already revoked one is revoked again, the oracle runs after each of these
+		for k := 0; k < 7 && !w.broken; k++ {
+			w.r.Count("cfgstep:"+w.randomCfgStep(rng), 1)
+			w.check("prologue")
+			if ci := w.issue(rng.Intn(nroots), false); ci >= 0 {
+				w.revoke(ci, kit.Pick(rng, []string{"serial", "serial-hyphen", "cert", "key-serial"}))
+				w.check("prologue")
+			}
+			if len(w.order) > 0 {
+				e := w.ledger[kit.Pick(rng, w.order)]
+				if c := &w.certs[e.Cert]; c.IsIssuer < 0 && !c.Expired {
+					w.revoke(e.Cert, "serial")
+					w.check("prologue")
+				}
+			}
+		}
 	}
 	for s := 0; s < nsteps && !w.broken; s++ {
 		w.randomStep(rng, kinds)
@@ -231,7 +316,7 @@ func TestVerif_C16_Histories(t *testing.T) {
 	r := kit.NewResult(t, "c16-histories", seed, "generated histories of issue / forge (bring-your-own, also long expired) / revoke through every route (serial in three spellings, certificate, with-key, lease, issuer) / re-revoke / rotate / rotate-delta / tidy / config flips (auto-rebuild+delta, disable, ocsp_disable, allow-expired) / issuer remove, re-import, add, set-default / restart / periodic tick over 2-5 issuers (distinct roots, optionally a re-issued root sharing subject and key, optionally an intermediate whose own CA certificate is revocable); after every step the oracle reads cert/<serial>, OCSP, certs/revoked, every issuer's complete CRL (parsed and verified with crypto/x509) and the legacy CRL endpoints and compares them with the ledger of revocations the API reported successful; an evaluation is one step+oracle pass; a history is non-trivial when it ends with >= 3 ledger entries and ran >= 3 different kinds of non-revocation operations while the ledger was non-empty")
 	defer r.Write(t)
 	shard, shards := kit.Shard()
-	n := kit.N(40, 4000)
+	n := kit.N(50, 4000)
 	steps := kit.N(30, 40)
 	for h := 0; h < n; h++ {
 		if h%shards != shard {
@@ -242,7 +327,7 @@ func TestVerif_C16_Histories(t *testing.T) {
 			continue
 		}
 		rng := kit.NewRand(seed, uint64(1000+h))
-		w, kinds := c16History(r, rng, id, steps, h%4, true)
+		w, kinds := c16History(r, rng, id, steps, h%5, true)
 		nk := 0
 		for k := range kinds {
 			if k != "revoke" && k != "rerevoke" && k != "issue" && k != "forge" {
@@ -272,7 +357,34 @@ func TestVerif_C16_Histories(t *testing.T) {
 	r.Require("crl_rebuilds_observed", 10*per)
 	r.Require("crls_verified", 60*per)
 	r.Require("restarts", per)
+	r.Require("crls_parsed", 60*per)
+	r.Require("crl_endpoint_comparisons", 150*per)
+	r.Require("crl_number_comparisons", 50*per)
+	r.Require("crl_number_increase_confirmed", 10*per)
+	r.Require("config_writes", 3*per)
 	if per >= 8 {
+		// configuration transitions, per kind
+		r.Require("cfgtrans:auto_on_without_delta", per/4)
+		r.Require("cfgtrans:auto_on_with_delta", per/4)
+		r.Require("cfgtrans:auto_off", per/3)
+		r.Require("cfgtrans:auto_off_from_no_delta", per/8)
+		r.Require("cfgtrans:auto_off_from_delta", per/8)
+		r.Require("cfgtrans:auto_off_with_pending_revocations", per/8)
+		r.Require("cfgtrans:auto_off_with_pending_revocations_delta_never_on", 3)
+		r.Require("pending_revocation_seen_published_on_leaving_auto_rebuild", per/8)
+		r.Require("cfgtrans:delta_on", 2)
+		r.Require("cfgtrans:delta_off", 2)
+		r.Require("cfgtrans:disable_on", per/4)
+		r.Require("cfgtrans:disable_off", per/4)
+		r.Require("cfgtrans:disable_off_with_ledger", per/8)
+		r.Require("cfgtrans:expiry_change", per/4)
+		r.Require("cfgtrans:grace_period_change", per/8)
+		r.Require("config_writes_not_accepted", 3)
+		r.Require("crl_obliged_auto_off_now_revoked_under_auto", per)
+		r.Require("crl_obliged_after_rotate_under_auto", per)
+		r.Require("crl_absent_while_auto_rebuild_pending", per)
+		r.Require("crl_number_increase_confirmed_under_auto_rebuild", per)
+		r.Require("rerevoke_success", per)
 		r.Require("crl_not_obliged_auto_rebuild_pending", 1)
 		r.Require("ocsp_issuer_removed_not_good", 1)
 		r.Require("expired_entries_seen_removed", 1)
